@@ -65,3 +65,94 @@ func c10NameConstraint(c *Ctx) {
 	c.Violated(rule, fname(f), "the label separator takes part in the name-constraint decision",
 		"neither matchNameConstraint nor a function it calls compares with '.' or passes a \".\" constant: a suffix match without a label boundary accepts names outside the permitted subtree (evilexample.com under example.com)", f.Pos())
 }
+
+// c10UsageWalk — checkChainForKeyUsage accepts a chain only after every certificate of it has been consulted: no
+// accepting return is reached by leaving the loop over the chain early. Decided on the CFG: for every outermost loop
+// whose header has an exit edge, an edge that leaves the loop from a block other than the header must not lead to a
+// return whose result can be true. (A loop without a header exit — `for { … break … }` — is not judged.)
+func c10UsageWalk(c *Ctx) {
+	rule := "G-C10-usagewalk"
+	f := c.Fn("x509", "checkChainForKeyUsage")
+	if f == nil {
+		c.Missing(rule, "x509.checkChainForKeyUsage", "function", "not found")
+		return
+	}
+	reachFrom := func(start *ssa.BasicBlock, stop *ssa.BasicBlock) map[*ssa.BasicBlock]bool {
+		seen := map[*ssa.BasicBlock]bool{}
+		var st []*ssa.BasicBlock
+		st = append(st, start)
+		for len(st) > 0 {
+			b := st[len(st)-1]
+			st = st[:len(st)-1]
+			if seen[b] || b == stop {
+				continue
+			}
+			seen[b] = true
+			st = append(st, b.Succs...)
+		}
+		return seen
+	}
+	hs := loopHeaders(f)
+	inLoop := func(h, x *ssa.BasicBlock) bool { return h.Dominates(x) && reachFrom(x, nil)[h] }
+	nLoops, nExits := 0, 0
+	bad := false
+	for _, h := range hs {
+		outer := true
+		for _, g := range hs {
+			if g != h && inLoop(g, h) {
+				outer = false
+			}
+		}
+		if !outer {
+			continue
+		}
+		body := map[*ssa.BasicBlock]bool{}
+		for _, b := range f.Blocks {
+			if inLoop(h, b) {
+				body[b] = true
+			}
+		}
+		headerExit := false
+		for _, s := range h.Succs {
+			if !body[s] {
+				headerExit = true
+			}
+		}
+		if !headerExit {
+			c.Undecided(rule, fname(f), "loop without an exit at its header", "the walk over the chain is not a counted/ranged loop; early exits are not judged", h.Instrs[0].Pos())
+			continue
+		}
+		nLoops++
+		for _, x := range f.Blocks {
+			if !body[x] || x == h {
+				continue
+			}
+			for _, y := range x.Succs {
+				if body[y] {
+					continue
+				}
+				nExits++
+				for b := range reachFrom(y, h) {
+					ret, ok := b.Instrs[len(b.Instrs)-1].(*ssa.Return)
+					if !ok || len(ret.Results) != 1 {
+						continue
+					}
+					if v, isC := constBool(ret.Results[0]); isC && !v {
+						continue
+					}
+					bad = true
+					c.Violated(rule, fname(f), "no accepting return by leaving the walk over the chain early",
+						"a return that can yield true is reached from inside the loop over the chain without the loop having finished: the remaining certificates' extended key usages are not consulted", ret.Pos())
+				}
+			}
+		}
+	}
+	c.Evals += len(f.Blocks)
+	if !bad {
+		if nLoops == 0 {
+			c.Undecided(rule, fname(f), "walk over the chain", "no loop with a header exit found", f.Pos())
+			return
+		}
+		c.Holds(rule, fname(f), "no accepting return by leaving the walk over the chain early", fmt.Sprintf("%d outermost loop(s), %d early exit edge(s), all lead to a rejecting return", nLoops, nExits), f.Pos())
+	}
+}
